@@ -118,7 +118,7 @@ def run(facts, res):
                 res.violation("A1", "%s|apply-without-ready" % body.path,
                               "%s calls %s without being dominated by `status == Ready` on the applied block (guard state: %s, same block: %s)" % (
                                   body.path, ap.path, st, same), s.loc())
-    res.floor("A1", "apply call sites", n_sites, 3)
+    res.floor("A1", "apply call sites", n_sites, 1)
     all_writes = []
     for b in facts.repo_bodies():
         for (bi, st, v) in status_writes(b):
